@@ -416,24 +416,38 @@ func (c *concRun) emitCrash(tag, res string) {
 func (c *concRun) traceRun() bool {
 	exe, _ := os.Executable()
 	dir := filepath.Join(c.work, "cchild")
-	os.RemoveAll(dir)
-	os.MkdirAll(dir, 0o755)
 	markerF := filepath.Join(c.work, "cchild.out")
 	trace := filepath.Join(c.work, "ctrace.txt")
-	out, err := os.Create(markerF)
-	if err != nil {
-		panic(err)
-	}
-	ctx, cancel := context.WithTimeout(context.Background(), 120*time.Second)
+	ctx, cancel := context.WithTimeout(context.Background(), 240*time.Second)
 	defer cancel()
-	// --seccomp-bpf: only the traced calls stop the child, the goroutines really run in parallel
-	cmd := exec.CommandContext(ctx, "strace", "-f", "--seccomp-bpf", "-qq", "-y", "-xx", "-s", "4000000",
-		"-e", "trace=openat,write,pwrite64,ftruncate,rename,renameat,renameat2,unlink,unlinkat,mkdir,mkdirat,fsync,fdatasync,close",
-		"-o", trace, exe, "-cchild", dir, c.planFile())
-	cmd.Stdout = out
-	cmd.Stderr = os.Stderr
-	err = cmd.Run()
-	out.Close()
+	var err error
+	// --seccomp-bpf: only the traced calls stop the child, the goroutines really run in parallel;
+	// an strace without that option runs the same trace the slow way
+	for _, fast := range []bool{true, false} {
+		os.RemoveAll(dir)
+		os.MkdirAll(dir, 0o755)
+		out, cerr := os.Create(markerF)
+		if cerr != nil {
+			panic(cerr)
+		}
+		args := []string{"-f"}
+		if fast {
+			args = append(args, "--seccomp-bpf")
+		}
+		args = append(args, "-qq", "-y", "-xx", "-s", "4000000",
+			"-e", "trace=openat,write,pwrite64,ftruncate,rename,renameat,renameat2,unlink,unlinkat,mkdir,mkdirat,fsync,fdatasync,close",
+			"-o", trace, exe, "-cchild", dir, c.planFile())
+		cmd := exec.CommandContext(ctx, "strace", args...)
+		cmd.Stdout = out
+		if !fast {
+			cmd.Stderr = os.Stderr
+		}
+		err = cmd.Run()
+		out.Close()
+		if st, serr := os.Stat(markerF); err == nil || (serr == nil && st.Size() > 0) {
+			break
+		}
+	}
 	mb, _ := os.ReadFile(markerF)
 	complete := strings.HasSuffix(string(mb), "stopped\n")
 	if err != nil && len(mb) == 0 {
